@@ -230,6 +230,15 @@ def check(tier, seed, replay=None):
                     id_ = i if i < 7 else i - 5          # the last two overwrite documents 2 and 3
                     cmds.append('add %d - %s' % (id_, ' '.join(str(bits(x)) for x in v)))
                     want[id_] = [bits(stored_ref(b, x)) for x in v]
+                    last = v
+                # a replacement that differs from the stored vector by very little must still be stored as given:
+                # one ulp, 1e-12 and 3e-10 per component, and a small-magnitude vector moved by a few float32 steps
+                tiny = [(k + 1) * 1.25e-5 for k in range(dim)]
+                for id_, v in ((4, [nxt(x) for x in last]), (5, [x + 1e-12 for x in last]), (6, [x - 3e-10 for x in last]), (9, tiny), (9, [x + 2e-11 for x in tiny])):
+                    if id_ != 9:
+                        cmds.append('add %d - %s' % (id_, ' '.join(str(bits(x)) for x in last)))
+                    cmds.append('add %d - %s' % (id_, ' '.join(str(bits(x)) for x in v)))
+                    want[id_] = [bits(stored_ref(b, x)) for x in v]
                 cmds.append('docs')
                 lines2, rc2, err2 = run_harness(['search', cpath], '\n'.join(cmds) + '\n', timeout=120)
                 got = {int(l.split()[1]): [int(x) for x in l.split()[3:]] for l in lines2 if l.startswith('doc ')}
